@@ -157,6 +157,8 @@ func TestC12Standin(t *testing.T) {
 		var ops []string
 		tags := map[string]c12Tag{}
 		known := map[uint64]string{} // streams of imports reported processed
+		endpoints := map[string]bool{}
+		hooks := map[string]bool{}
 		nImports := 0
 		for step := 0; step < histLen; step++ {
 			switch r := rng.Intn(10); {
@@ -209,8 +211,34 @@ func TestC12Standin(t *testing.T) {
 					ops = append(ops, fmt.Sprintf("UpdateQuery(%s,%q)", n, def))
 				}
 			case r < 7:
-				time.Sleep(time.Duration(rng.Intn(30)) * time.Millisecond)
-				ops = append(ops, "pause")
+				switch rng.Intn(3) {
+				case 0:
+					time.Sleep(time.Duration(rng.Intn(30)) * time.Millisecond)
+					ops = append(ops, "pause")
+				case 1:
+					// a capture endpoint (nothing listens there: the service keeps trying to connect)
+					a := fmt.Sprintf("127.0.0.1:%d", 1+rng.Intn(2))
+					if !endpoints[a] {
+						if mgr.AddPcapOverIPEndpoint(a) == nil {
+							endpoints[a] = true
+							ops = append(ops, "AddEndpoint("+a+")")
+						}
+					} else if mgr.DelPcapOverIPEndpoint(a) == nil {
+						delete(endpoints, a)
+						ops = append(ops, "DelEndpoint("+a+")")
+					}
+				default:
+					u := fmt.Sprintf("http://127.0.0.1:1/hook%d", rng.Intn(2))
+					if !hooks[u] {
+						if mgr.AddPcapProcessorWebhook(u) == nil {
+							hooks[u] = true
+							ops = append(ops, "AddWebhook("+u+")")
+						}
+					} else if mgr.DelPcapProcessorWebhook(u) == nil {
+						delete(hooks, u)
+						ops = append(ops, "DelWebhook("+u+")")
+					}
+				}
 			default:
 				// the kill: copy the directories between two handlers, then start a second service on the copy
 				evals++
@@ -257,6 +285,13 @@ func TestC12Standin(t *testing.T) {
 				wantTags := map[string]c12Tag{}
 				for n, tg := range tags {
 					wantTags[n] = tg
+				}
+				wantEndpoints, wantHooks := map[string]bool{}, map[string]bool{}
+				for a := range endpoints {
+					wantEndpoints[a] = true
+				}
+				for u := range hooks {
+					wantHooks[u] = true
 				}
 				wantStreams := map[uint64]string{}
 				for id, ep := range known {
@@ -340,7 +375,49 @@ func TestC12Standin(t *testing.T) {
 						}
 					}
 				}
+				// endpoints and webhooks acknowledged before the kill: after this restart and after one more
+				settings := func(m *Manager, when string) {
+					var ge, gh, we, wh []string
+					for _, e := range m.ListPcapOverIPEndpoints() {
+						ge = append(ge, e.Address)
+					}
+					gh = append(gh, m.ListPcapProcessorWebhooks()...)
+					for a := range wantEndpoints {
+						we = append(we, a)
+					}
+					for u := range wantHooks {
+						wh = append(wh, u)
+					}
+					sort.Strings(ge)
+					sort.Strings(gh)
+					sort.Strings(we)
+					sort.Strings(wh)
+					if strings.Join(ge, " ") != strings.Join(we, " ") {
+						fail("endpoint-lost", hist, fmt.Sprintf("%s the capture endpoints are %v, acknowledged were %v", when, ge, we))
+					}
+					if strings.Join(gh, " ") != strings.Join(wh, " ") {
+						fail("setting-lost", hist, fmt.Sprintf("%s the webhooks are %v, acknowledged were %v", when, gh, wh))
+					}
+				}
+				settings(m2, "after the restart")
 				m2.Close()
+				m3, err := New(cd.pcap, cd.index, cd.snapshot, cd.state, cd.converter, cd.watch)
+				if err != nil {
+					fail("restart-fails", hist, fmt.Sprintf("second restart on the copied directories: %v", err))
+					continue
+				}
+				settings(m3, "after a second restart")
+				got = map[string]c12Tag{}
+				for _, ti := range m3.ListTags() {
+					got[ti.Name] = c12Tag{ti.Definition, ti.Color}
+				}
+				for _, n := range names {
+					if g, ok := got[n]; !ok || g != wantTags[n] {
+						fail("tag-lost", hist, fmt.Sprintf("after a second restart tag %s is %q/%s (present=%v), acknowledged was %q/%s", n, g.def, g.color, ok, wantTags[n].def, wantTags[n].color))
+					}
+				}
+				c12Quiet(m3, 10*time.Second)
+				m3.Close()
 			}
 		}
 		if len(samples) < 3 {
